@@ -18,7 +18,7 @@ class _Subst(ast.NodeTransformer):
 
 class SpecMixin:
     SPEC_FUNCS = {"forall", "exists", "forall2", "implies", "iff", "old", "strictly_increasing", "nondecreasing",
-                  "member", "psum", "same", "ite", "unchanged", "is_none", "card", "psum_monotone", "mpow", "wsum", "intro_all", "intro"}
+                  "member", "psum", "same", "ite", "unchanged", "is_none", "card", "psum_monotone", "mpow", "wsum", "intro_all", "intro", "dict_values_in"}
 
     def parse_spec(self, src):
         if src not in self._spec_cache:
@@ -340,6 +340,14 @@ class SpecMixin:
         # drop what oblige assumed for the one constant c and state it for all c
         st.assume(z3.ForAll([c], z3.Implies(z3.And(c >= 0, c < n), ab)))
         return Sc("bool", z3.BoolVal(True))
+
+    def spec_dict_values_in(self, node, st):
+        """dict_values_in(d, lo, hi): every value stored in d lies in [lo, hi)."""
+        d = st.obj(self.eval(node.args[0], st))
+        lo, hi = self.eval_int(node.args[1], st), self.eval_int(node.args[2], st)
+        k = fresh("key", d.ksort)
+        v = z3.Select(d.val, k)
+        return Sc("bool", qall([k], z3.Implies(z3.Select(d.dom, k), z3.And(v >= lo, v < hi)), pats=[z3.Select(d.dom, k)]))
 
     def spec_same(self, node, st):
         """same(a, b): the two expressions denote the same heap object."""
